@@ -256,6 +256,69 @@ def emb_for3(matrix, variant):
     return "\n".join(lines) + "\n"
 
 
+def emb_for4(matrix, variant):
+    """One structure; every edge is rendered either as a local reference (`fJ`) or as a static reference
+    (`Graph.fJ`), by parity -- a cycle generally needs both kinds of edge."""
+    n = len(matrix)
+    static = lambda i, j: (i + j + variant) % 2 == 0
+    lines = ['[$default byte_order: "LittleEndian"]', "struct Graph:", "  0 [+1]  UInt  base"]
+    for i in range(n):
+        refs = [("Graph.f%d" % j) if static(i, j) else ("f%d" % j) for j in range(n) if matrix[i][j]]
+        lines.append("  let f%d = %s" % (i, " + ".join(["1"] + refs)))
+    return "\n".join(lines) + "\n"
+
+
+def render(matrix, variant):
+    if variant < 0:
+        return emb_for(matrix)
+    if variant < 10:
+        return emb_for2(matrix, variant)
+    if variant < 13:
+        return emb_for3(matrix, variant)
+    return emb_for4(matrix, variant)
+
+
+def import_graph_job(matrix):
+    """Modules m0..m2 importing each other as the matrix says (a diagonal entry is a module importing itself);
+    m0 is compiled.  'Import dependency cycle' must be reported iff a cycle is reachable from m0, and an acyclic
+    import graph must be accepted."""
+    n = len(matrix)
+    texts = {}
+    for i in range(n):
+        lines = ['import "m%d.emb" as mm%d' % (j, j) for j in range(n) if matrix[i][j]]
+        lines += ['[$default byte_order: "LittleEndian"]', "struct Ss%d:" % i, "  0 [+1]  UInt  x"]
+        texts["m%d.emb" % i] = "\n".join(lines) + "\n"
+    from compiler.front_end import emboss_front_end
+    real = emboss_front_end._find_in_dirs_and_read([common.REPO])
+
+    def rd(name):
+        return (texts[name], None) if name in texts else real(name)
+
+    reach = {0}
+    work = [0]
+    while work:
+        i = work.pop()
+        for j in range(n):
+            if matrix[i][j] and j not in reach:
+                reach.add(j)
+                work.append(j)
+    sub = [[matrix[i][j] if (i in reach and j in reach) else 0 for j in range(n)] for i in range(n)]
+    want = py_cyclic(sub)
+    text = "\n".join("# %s\n%s" % (k, v) for k, v in sorted(texts.items()))
+    try:
+        ir, _, errors = glue.parse_emboss_file("m0.emb", rd)
+    except RecursionError:
+        return {"matrix": matrix, "variant": "imports", "text": text, "problem": "front end exceeded the recursion limit on an import graph (missed cycle)"}
+    except Exception as e:  # pylint: disable=broad-except
+        return {"matrix": matrix, "variant": "imports", "text": text, "problem": "front end crashed on an import graph: %s: %s" % (type(e).__name__, str(e)[:100])}
+    cyc = any("Import dependency cycle" in m.message for grp in (errors or []) for m in grp)
+    if cyc != want or (want and not errors):
+        return {"matrix": matrix, "variant": "imports", "text": text, "problem": "import cycle error reported=%s, import graph reachable from m0 cyclic=%s" % (cyc, want)}
+    if not want and errors:
+        return {"matrix": matrix, "variant": "imports", "text": text, "problem": "acyclic import graph rejected: %s" % errors[0][0].message[:80]}
+    return None
+
+
 def py_cyclic(matrix):
     n = len(matrix)
     R = [row[:] for row in matrix]
@@ -267,7 +330,7 @@ def py_cyclic(matrix):
 
 
 def front_end_on(matrix, variant=-1):
-    text = emb_for(matrix) if variant < 0 else emb_for2(matrix, variant) if variant < 10 else emb_for3(matrix, variant)
+    text = render(matrix, variant)
     from compiler.front_end import emboss_front_end
     real = emboss_front_end._find_in_dirs_and_read([common.REPO])
 
@@ -277,7 +340,7 @@ def front_end_on(matrix, variant=-1):
     ir, _, errors = glue.parse_emboss_file("graph.emb", rd)
     cyc = any("Dependency cycle" in m.message for grp in (errors or []) for m in grp)
     order = None
-    if ir is not None and variant < 10:
+    if ir is not None and (variant < 10 or variant >= 13):
         st = [t for t in ir.module[0].type if t.name.name.text == "Graph"][0].structure
         names = [st.field[i].name.name.text for i in st.fields_in_dependency_order]
         order = [x for x in names if x.startswith("f")]
@@ -289,7 +352,7 @@ def _fe_job(job):
     r = _fe_job1(matrix, variant)
     if r is not None:
         r["variant"] = variant
-        r["text"] = emb_for(matrix) if variant < 0 else emb_for2(matrix, variant) if variant < 10 else emb_for3(matrix, variant)
+        r["text"] = render(matrix, variant)
     return r
 
 
@@ -310,11 +373,14 @@ def _fe_job1(matrix, variant):
             return None  # nodes in several types: no single structure whose field order could be inspected
         n = len(matrix)
         pos = {name: k for k, name in enumerate(order)}
+        # a static reference `Graph.fJ` denotes the constant, not a field of the instance being read: it takes
+        # part in the cycle rule, not in the field order (the order is defined over local field references)
+        local = lambda i, j: not (variant >= 13 and (i + j + variant) % 2 == 0)
         for i in range(n):
             for j in range(n):
-                if matrix[i][j] and pos["f%d" % j] > pos["f%d" % i]:
+                if matrix[i][j] and local(i, j) and pos["f%d" % j] > pos["f%d" % i]:
                     return {"matrix": matrix, "problem": "f%d is ordered before its dependency f%d: %s" % (i, j, order)}
-        if all(not matrix[i][j] for i in range(n) for j in range(n) if j >= i) and order != ["f%d" % i for i in range(n)]:
+        if all(not (matrix[i][j] and local(i, j)) for i in range(n) for j in range(n) if j >= i) and order != ["f%d" % i for i in range(n)]:
             return {"matrix": matrix, "problem": "source order is valid but was changed to %s" % order}
     return None
 
@@ -341,6 +407,9 @@ def replay(c):
                 want.add(frozenset(node(j) for j in range(n) if (R[i][j] and R[j][i]) or j == i))
         return set(comps) != want, "real _find_cycles returned %s, strongly connected components with a cycle are %s" % (
             sorted(sorted(x[2] for x in comp) for comp in comps), sorted(sorted(x[2] for x in comp) for comp in want))
+    if c.get("variant") == "imports":
+        r = import_graph_job(m)
+        return (r is not None), (r["problem"] + " on\n" + r["text"]) if r else "import graph handled as documented on replay"
     r = _fe_job((m, c.get("variant", -1))) if c.get("variant") is not None else _fe_job(m)
     if r is not None:
         return True, r["problem"] + " on\n" + r.get("text", emb_for(m))
@@ -385,7 +454,8 @@ def main(tier):
         results = pool.map(_job, jobs)
         # translator validation through the whole front end: every 3-node graph (quick: a seeded sample)
         mats = [[[(bits >> (i * 3 + j)) & 1 for j in range(3)] for i in range(3)] for bits in range(512)]
-        fe = pool.map(_fe_job, [(m, v) for m in mats for v in (-1, 0, 1, 2, 10, 11, 12)], chunksize=8)
+        fe = pool.map(_fe_job, [(m, v) for m in mats for v in (-1, 0, 1, 2, 10, 11, 12, 13, 14)], chunksize=8)
+        fe += pool.map(import_graph_job, mats, chunksize=8)
     tot = {"paths": 0, "obligations": 0, "discharged": 0}
     cands = []
     detail = {}
@@ -431,8 +501,9 @@ def main(tier):
         "functions_encoded": ["dependency_checker._find_cycles", "dependency_checker._find_dependency_ordering_for_fields_in_structure",
                               "whole front end (glue.parse_emboss_file) on rendered 3-node graphs: _find_dependencies, find_dependency_cycles, set_dependency_order"],
         "bounds": {"nodes": "cycles N <= %d, ordering N <= %d (all graphs)" % (4 if tier == "thorough" else 3, 5 if tier == "thorough" else 4),
-                   "front end": "every 3-node graph, rendered seven ways (virtual fields; physical fields depending through locations, existence conditions and type-parameter arguments; constants spread over two or three types, one of them an enum value, referring to each other as Type.name)",
-                   "outside": "import cycles (same _find_cycles on the module graph)"},
+                   "front end": "every 3-node graph, rendered nine ways (virtual fields; one structure with local and static `Graph.f` references mixed by parity; physical fields depending through locations, existence conditions and type-parameter arguments; constants spread over two or three types, one of them an enum value, referring to each other as Type.name)",
+                   "imports": "every import graph on three modules (self-imports included), compiled from m0: cycle error iff a cycle is reachable from m0",
+                   "outside": "graphs on more than three nodes through the front end; import graphs on more than three modules"},
     })
     return rep.finish()
 
